@@ -194,7 +194,7 @@ class FalsyStrictUndefined(StrictUndefined):
         return False
 
     def __eq__(self, other: object) -> bool:
-        return other is False
+        return isinstance(other, Undefined) or other is None
 
 
 def is_undefined(obj: object) -> TypeGuard[Undefined]:
